@@ -610,6 +610,7 @@ func extractC03() *lean {
 	// ---------- I. crypto REST wrapper (deepening round): validate() check lists, status table, handler steps
 	c03ApiFacts(l)
 	c03DpopFacts(l)
+	c03FsListFacts(l)
 	return l
 }
 
